@@ -24,7 +24,7 @@ META = {
                   "introducing constants/methods/classes/locals, redefinitions, runtime errors) are run in a real REPL session; each "
                   "input is compared with a batch run and, after every rejected input, a reflective deep fingerprint of the Checker "
                   "is compared with a shadow checker in which the rejected input was replaced by `1 + nil`.",
-    "level_note": "Trusted: Lean kernel; harness/dom/repl.go (session driver, fingerprint walker with the reviewed skip-list "
+    "level_note": "Trusted: Lean kernel; harness/dom/repl.go (session driver, itself compared per input with repl.evaluate through hook repl/verif_eval.go; fingerprint walker with the reviewed skip-list "
                   "fpSkipFields/fpOnlyFields/fpSkipStructFields); python generator. Batch comparison looks at the last input's "
                   "segment only (definitions are hoisted in a batch program). Not covered: VM stack layout beyond observable output, "
                   "macros defined in rejected inputs, the Go backend. Known findings: DeepCopyEnv conflates the anonymous "
@@ -163,7 +163,7 @@ def gen_rich_history(rng, uid):
 
 # ---------------------------------------------------------------- execution
 
-def run_sessions(reqs, workers=4, timeout=900):
+def run_sessions(reqs, workers=4, timeout=900, sub="repl"):
     if not reqs:
         return []
     chunks = [reqs[i::workers] for i in range(workers)]
@@ -177,7 +177,7 @@ def run_sessions(reqs, workers=4, timeout=900):
         while rest:
             data = "".join(json.dumps(r) + "\n" for r in rest)
             try:
-                p = subprocess.run([vlib.ELKH, "repl"], input=data, stdout=subprocess.PIPE, stderr=subprocess.PIPE,
+                p = subprocess.run([vlib.ELKH, sub], input=data, stdout=subprocess.PIPE, stderr=subprocess.PIPE,
                                    text=True, env=env, timeout=timeout)
                 lines, err = [l for l in p.stdout.splitlines() if l.strip()], p.stderr
             except subprocess.TimeoutExpired:
@@ -194,7 +194,7 @@ def run_sessions(reqs, workers=4, timeout=900):
             if got and got[-1].get("outcome") == "timeout":
                 rest = rest[len(got):]      # worker recycled itself
                 continue
-            out.append({"id": rest[len(got)]["id"], "steps": [], "outcome": "fatal", "panic": vlib.classify_fatal(err)})
+            out.append({"id": rest[len(got)]["id"], "steps": [], "texts": [], "outcome": "fatal", "panic": vlib.classify_fatal(err)})
             rest = rest[len(got) + 1:]
             guard += 1
             if guard > 50:
@@ -250,6 +250,26 @@ def session_obs(step):
     return ("value", norm_result(step.get("result", "")), step.get("stdout", ""))
 
 
+ANSI_RE = re.compile(r"\x1b\[[0-9;]*m")
+
+
+def real_repl_obs(text):
+    """what repl.evaluate printed for one input -> comparable observation"""
+    t = ANSI_RE.sub("", text)
+    m = re.search(r"(?s)^(.*)=> (.*)\n\n$", t)
+    if m:
+        return ("value", norm_result(m.group(2)), m.group(1))
+    if "[FAIL]" in t:
+        return ("rejected", "", "")
+    m = re.search(r"(?s)^(.*?)Stack trace \(the most recent call is last\).*Uncaught error (\S+): ", t)
+    if m:
+        return ("error", m.group(2), m.group(1))
+    m = re.search(r"(?s)^(.*?)Stack trace \(the most recent call is last\).*Uncaught thrown value", t)
+    if m:
+        return ("error", "thrown", m.group(1))
+    return ("unrecognised", t[:120], "")
+
+
 def batch_obs(ans, idx):
     if ans.get("rejected"):
         return ("rejected", "", "")
@@ -289,6 +309,11 @@ def evaluate(histories, ids, fingerprint=True, timeout_ms=60000):
     for k, a in enumerate(sess):
         if a.get("outcome") == "timeout":
             sess[k] = run_sessions([dict(reqs[k], timeout_ms=240000)], workers=1)[0]
+    # the REPL's own evaluate function (repl/repl.go) on the same histories
+    real = run_sessions([{"id": i, "inputs": h, "timeout_ms": timeout_ms} for i, h in zip(ids, histories)], sub="replreal")
+    for k, a in enumerate(real):
+        if a.get("outcome") == "timeout":
+            real[k] = run_sessions([{"id": ids[k], "inputs": histories[k], "timeout_ms": 240000}], workers=1, sub="replreal")[0]
     breqs, bmap = [], []
     for hi, (h, a) in enumerate(zip(histories, sess)):
         prev = []
@@ -308,6 +333,19 @@ def evaluate(histories, ids, fingerprint=True, timeout_ms=60000):
         if a.get("outcome") in ("timeout", "fatal"):
             fails.append(("host-crash", f"REPL session {a.get('outcome')}: {a.get('panic', '')} after {len(a.get('steps', []))} inputs",
                           {"history": h[:len(a.get("steps", [])) + 1]}))
+        ra = real[hi]
+        if ra.get("outcome") != "ok":
+            fails.append(("host-crash", f"repl.evaluate: {ra.get('outcome')} {ra.get('panic', '')} after {len(ra.get('texts', []))} inputs",
+                          {"history": h[:len(ra.get("texts", [])) + 1]}))
+        for si, (st, txt) in enumerate(zip(a.get("steps", []), ra.get("texts", []))):
+            ro, so = real_repl_obs(txt), session_obs(st)
+            if so[0] == "error" and ro[0] == "error" and ro[1] == "thrown":
+                ro = ("error", so[1], ro[2])
+            if ro != so and not st.get("panic"):
+                fails.append(("repl-evaluate-differs",
+                              f"input #{si} {h[si]!r}: repl.evaluate printed {ro} but an incremental checker + InterpretREPL session driven "
+                              f"the way evaluate is documented gives {so}", {"history": h[:si + 1], "trace": "evaluate"}))
+                break
         for si, st in enumerate(a.get("steps", [])):
             if st.get("panic"):
                 fails.append(("host-crash", f"Go panic in the {st.get('stage')} stage of input #{si}: {st['panic']}", {"history": h[:si + 1]}))
@@ -407,7 +445,7 @@ def run(ctx):
                     continue
                 reported += 1
                 h2 = inp["history"]
-                if kind in ("session-differs-from-batch", "rejected-input-leaves-trace") and len(h2) > 1 and not ctx.replay:
+                if kind in ("session-differs-from-batch", "rejected-input-leaves-trace", "repl-evaluate-differs") and len(h2) > 1 and not ctx.replay:
                     small = shrink(h2, kind, inp.get("trace"))
                     r2 = evaluate([small], ["fin"])[0]
                     hit = [(k2, d2, i2) for k2, d2, i2 in r2["fails"] if k2 == kind and i2.get("trace") == inp.get("trace")]
